@@ -1339,13 +1339,14 @@ def post_report(contract, rep):
                 o["reason"] = f"contract of role {contract.role} on a function matched by data flow: " + (o.get("reason") or "")
     if getattr(contract, "role", "") in DRIVERS:
         # the drivers' loops are cut by invariants that this pack GUESSES from the roles of the locals (output buffer, counters,
-        # chaining block): a VC that fails may only mean that the guessed invariant does not fit a restructured loop.  Such a
-        # model is no counterexample to the property: `unknown`, and the native replayer (differential runs of all four
-        # drivers over short and long messages, wrong lengths) decides.
+        # chaining block): a VC that fails ON A PATH THROUGH THE CUT may only mean that the guessed invariant does not fit a
+        # restructured loop.  Those paths are tagged by the executor (C20Executor.havoc_loop_state: `__havoc__@loop cut ...`), so
+        # verify.discharge already reports such a refutation as `unknown`; the invariant's own initialisation VC is demoted here.
+        # A refutation on a path that never reaches the loop (length checks, early returns) is a definite model of the real code.
         for o in rep.obligations:
-            if o["status"] == "refuted":
+            if o["status"] == "refuted" and "/inv-init#" in o["id"]:
                 o["status"] = "unknown"
-                o["reason"] = "fails under the inferred loop invariant (not a definite counterexample): " + (o.get("reason") or "")
+                o["reason"] = "the inferred loop invariant does not hold at loop entry (not a definite counterexample): " + (o.get("reason") or "")
     for o in rep.obligations:
         if o["id"].endswith("#iv-is-drawn-from-the-randomness-source-within-this-call") and o["status"] == "refuted":
             o["status"] = "unknown"
